@@ -207,10 +207,18 @@ impl<S: Read + Write> Client<S> {
     /// ```
     pub fn connect(mut tpkt: tpkt::Client<S>, security_protocols: u32, check_certificate: bool, authentication_protocol: Option<&mut dyn AuthenticationProtocol>, restricted_admin_mode: bool, blank_creds: bool) -> RdpResult<Client<S>> {
         Self::write_connection_request(&mut tpkt, security_protocols, Some(if restricted_admin_mode { RequestMode::RestrictedAdminModeRequired as u8} else { 0 }))?;
-        match Self::read_connection_confirm(&mut tpkt)? {
-            Protocols::ProtocolHybrid => Ok(Client::new(tpkt.start_nla(check_certificate, authentication_protocol.unwrap(), restricted_admin_mode || blank_creds)?,Protocols::ProtocolHybrid)),
+        let selected_protocol = Self::read_connection_confirm(&mut tpkt)?;
+        // The server must select one of the protocols offered in the request
+        // (standard RDP security is never offered : no silent downgrade)
+        if selected_protocol as u32 & security_protocols == 0 {
+            return Err(Error::RdpError(RdpError::new(RdpErrorKind::InvalidProtocol, "Server selected a security protocol that was not offered")))
+        }
+        match selected_protocol {
+            Protocols::ProtocolHybrid => {
+                let authentication_protocol = try_option!(authentication_protocol, "No authentication protocol available for NLA")?;
+                Ok(Client::new(tpkt.start_nla(check_certificate, authentication_protocol, restricted_admin_mode || blank_creds)?,Protocols::ProtocolHybrid))
+            },
             Protocols::ProtocolSSL => Ok(Client::new(tpkt.start_ssl(check_certificate)?, Protocols::ProtocolSSL)),
-            Protocols::ProtocolRDP => Ok(Client::new(tpkt, Protocols::ProtocolRDP)),
             _ => Err(Error::RdpError(RdpError::new(RdpErrorKind::InvalidProtocol, "Security protocol not handled")))
         }
     }
